@@ -7,6 +7,11 @@ GEN   specs/collfs/CollFSFlush.tla  MC_CollFSFlush_C13*.cfg: two files, throttle
                                     Gen_CollFSFlush_C13*.cfg: every behaviour = a SCHEDULE (which foreground call
                                     happens between start and completion of which Keep write, completion order,
                                     failures)
+      specs/collfs/CollFSDir.tla    MC_CollFSDir_C13*.cfg: directory level (lookup / lock / commit steps of Mkdir,
+                                    O_CREATE, Remove, Rename with the fs-wide mutex and root-first ancestor
+                                    locks, MarshalManifest) for 2 workers: refinement of CollFS, deadlock
+                                    freedom; Gen_CollFSDir_C13.cfg emits the schedules of its known-finding
+                                    class (an entry created in / moved into a directory unlinked meanwhile)
 RUN   harness/C08+C09+C13_arvados   (a) schedules replayed through a gated fake Keep; (b) 2-8 worker goroutines
                                     with random gate delays / failures under `go test -race`
 JUDGE specs/collfs/CollFSConcTrace.tla (CollFSConc: call/return linearisation over CollFS, saved manifests,
@@ -88,6 +93,15 @@ def run(ctx):
     else:
         ctx.tlc(SD, "CollFSFlush", "MC_CollFSFlush_C13_big.cfg" if ctx.thorough else "MC_CollFSFlush_C13.cfg",
             timeout=2400, label="exhaustive: 2 files, throttle 1-2, failing writes: refinement, content stable, copy-on-write, no deadlock")
+    if ctx.thorough and not C08.SKIP_MC:      # (quick tier: the Gen configuration below checks the same invariants, 1 call per worker)
+        ctx.tlc(SD, "CollFSDir", "MC_CollFSDir_C13_big.cfg", timeout=2400,
+                label="exhaustive: directory operations of 2 workers with the code's locks: refinement (outside KF_detached), tree agreement, no deadlock")
+    dsched, r = ctx.gen(SD, "CollFSDir", "Gen_CollFSDir_C13.cfg", timeout=2400,
+                        label="directory level, 1 call per worker: refinement, tree agreement, no deadlock; emits the schedules reaching KF_detached")
+    seen = set()
+    dsched = [d for d in dsched if not (repr(d) in seen or seen.add(repr(d)))]
+    dsched.sort(key=lambda d: repr(d))
+    ctx.extra["dir_schedules_emitted"] = len(dsched)
     sched, r = ctx.gen(SD, "CollFSFlush", "Gen_CollFSFlush_C13_big.cfg" if ctx.thorough else "Gen_CollFSFlush_C13.cfg",
                        timeout=2400, label="schedules: foreground calls x completion order / failure of Keep writes")
     ctx.extra["schedules_emitted"] = len(sched)
@@ -111,13 +125,21 @@ def run(ctx):
         rscns.append({"id": sid, "mode": "random", "bs": [1, 2, 3, 4][i % 4], "w": [1, 2, 4][i % 3],
                       "rseed": ctx.seed * 7919 + i, "workers": workers, "nops": nops, "failpct": [0, 10, 25][i % 3],
                       "savers": 1 if workers >= 6 else 1 + i % 2})
-    by_id = {s["id"]: s for s in scns + rscns}
-    ctx.extra["scenarios"] = {"schedules": len(scns), "random_concurrent": len(rscns)}
+    # (c) directory schedules: Rename variants replayed exactly (fs-wide mutex held by the driver while the
+    # other call runs), the others started together `reps` times
+    dscns = []
+    for d in dsched:
+        sid += 1
+        dscns.append({"id": sid, "mode": "dirsched", "bs": 4, "w": 4, "dir": d["steps"], "rseed": ctx.seed,
+                      "reps": 40 if ctx.thorough else 6})
+    scns_all = scns + dscns
+    by_id = {s["id"]: s for s in scns_all + rscns}
+    ctx.extra["scenarios"] = {"schedules": len(scns), "random_concurrent": len(rscns), "dir_schedules": len(dsched)}
     ov = ctx.harness_overlay(PKG, "harness/C08_arvados")
     ov.update(ctx.harness_overlay(PKG, "harness/C09_arvados"))
     ov.update(ctx.harness_overlay(PKG, "harness/C13_arvados"))
     # RUN (a): schedules through the gated Keep
-    ev1, out1 = C08.run_driver(ctx, PKG, ov, "TestVerifC13$", scns, timeout=2400)
+    ev1, out1 = C08.run_driver(ctx, PKG, ov, "TestVerifC13$", scns_all, timeout=2400)
     # RUN (b): random concurrency under the race detector
     ev2, out2 = C08.run_driver(ctx, PKG, ov, "TestVerifC13$", rscns, timeout=2400, race=True)
     traces = vlib.split_traces(ev1) + vlib.split_traces(ev2)
@@ -127,7 +149,7 @@ def run(ctx):
     nun = sum(1 for u in unapplied if u)
     if stuck:
         # the driver stops early after two proven deadlocks: the judge gets what was recorded
-        ctx.log("driver recorded a deadlock/panic event; %d of %d scenarios were run" % (len(traces), len(scns) + len(rscns)))
+        ctx.log("driver recorded a deadlock/panic event; %d of %d scenarios were run" % (len(traces), len(scns_all) + len(rscns)))
     if nun:
         ctx.drift.append("%d of %d schedules had Keep writes the code did not issue as the model predicted" % (nun, len(unapplied)))
     if not stuck and unapplied and nun > len(unapplied) // 2:
